@@ -42,6 +42,58 @@ type c19Case struct {
 	// those binds are not judged (either set may answer them). The judged binds start when nothing is in flight.
 	Churn        int `json:"churn,omitempty"`
 	ChurnBinders int `json:"churn_binders,omitempty"`
+	// Mods: LDAP Modify requests on users' password attribute (replace with new values / delete the attribute),
+	// sent by a client after the user set is in place and before the judged binds: "the right credentials" are
+	// the ones the directory holds at the time of the bind. Only users whose DN selects exactly one entry under
+	// the directory's substring matching are modified.
+	Mods []c19Mod `json:"mods,omitempty"`
+}
+
+type c19Mod struct {
+	User int      `json:"user"`
+	Op   string   `json:"op"` // replace delete
+	Vals []string `json:"vals,omitempty"`
+}
+
+// c19Modifiable: the directory selects the entry to modify with strings.Contains(entryDN, requestDN) after
+// trimming parentheses, '*', '|' and blanks; a modify is only generated for a DN that selects exactly its own entry.
+func c19Modifiable(users []c19User, i int) bool {
+	d := users[i].DN
+	if d == "" || strings.ContainsAny(d, "()*|\x00") || strings.TrimSpace(d) != d {
+		return false
+	}
+	n := 0
+	for _, u := range users {
+		if strings.Contains(u.DN, d) {
+			n++
+		}
+	}
+	return n == 1
+}
+
+// c19Effective: the user set after the case's password modifications.
+func c19Effective(c c19Case) []c19User {
+	if len(c.Mods) == 0 {
+		return c.Users
+	}
+	out := make([]c19User, len(c.Users))
+	copy(out, c.Users)
+	for _, m := range c.Mods {
+		if m.User < 0 || m.User >= len(out) || !c19Modifiable(c.Users, m.User) {
+			continue
+		}
+		u := out[m.User]
+		switch m.Op {
+		case "replace":
+			if u.HasPw { // replace only touches an attribute that exists
+				u.Pws = append([]string{}, m.Vals...)
+			}
+		case "delete":
+			u.HasPw, u.Pws = false, nil
+		}
+		out[m.User] = u
+	}
+	return out
 }
 
 var c19DNs = []string{"cn=a", "cn=a,dc=x", "cn=ab", "CN=A", "cn=b", "cn=a ", "", "cn=a,dc=x,dc=y", "dc=x", "cn=a\x00"}
@@ -55,7 +107,7 @@ func c19Model(c c19Case, b c19Bind) bool {
 	if b.PW == "" && c.Anon {
 		return true
 	}
-	for _, u := range c.Users {
+	for _, u := range c19Effective(c) {
 		if u.DN == b.DN && u.HasPw && len(u.Pws) > 0 && u.Pws[0] == b.PW {
 			return true
 		}
@@ -67,7 +119,18 @@ func c19Nontrivial(c c19Case, b c19Bind) bool {
 	if b.PW == "" {
 		return true
 	}
-	for _, u := range c.Users {
+	eff := c19Effective(c)
+	for i, u := range c.Users {
+		// a password the user had before / has after a Modify of its password attribute
+		if u.DN == b.DN && len(c.Mods) > 0 && fmt.Sprint(u.Pws) != fmt.Sprint(eff[i].Pws) {
+			for _, p := range append(append([]string{}, u.Pws...), eff[i].Pws...) {
+				if p == b.PW {
+					return true
+				}
+			}
+		}
+	}
+	for _, u := range eff {
 		if u.DN != b.DN && (strings.HasPrefix(u.DN, b.DN) || strings.HasPrefix(b.DN, u.DN) || strings.EqualFold(u.DN, b.DN)) {
 			return true
 		}
@@ -215,13 +278,41 @@ func c19Exec(c c19Case, st *lab.Stats) *lab.Fail {
 			cw.Wait()
 		}
 	}
+	if len(c.Mods) > 0 {
+		st.Class("password-modified-over-ldap")
+		for mode, h := range handles {
+			cn, err := h.dial(mode)
+			if err != nil {
+				st.Inconclusive("dial for modify: " + err.Error())
+				return nil
+			}
+			cn.SetTimeout(10 * time.Second)
+			for _, m := range c.Mods {
+				if m.User < 0 || m.User >= len(c.Users) || !c19Modifiable(c.Users, m.User) {
+					continue
+				}
+				mr := ldap.NewModifyRequest(c.Users[m.User].DN, nil)
+				if m.Op == "delete" {
+					mr.Delete("password", nil)
+				} else {
+					mr.Replace("password", m.Vals)
+				}
+				st.Class("password-" + m.Op)
+				if err := cn.Modify(mr); err != nil {
+					cn.Close()
+					return lab.Failf("password-modify-refused", "modify %s of the password of the existing user %q (users=%+v) over %s: %v", m.Op, c.Users[m.User].DN, c.Users, mode, err)
+				}
+			}
+			cn.Close()
+		}
+	}
 	for i, b := range c.Binds {
 		wgb.Add(1)
 		go func(i int, b c19Bind) {
 			defer wgb.Done()
 			results[i] = func() *lab.Fail {
 				want := c19Model(c, b)
-				st.Case(c19Nontrivial(c, b), lab.JSONKey([]interface{}{c.Users, c.Anon, b.DN, b.PW}), "transport="+b.Transport,
+				st.Case(c19Nontrivial(c, b), lab.JSONKey([]interface{}{c.Users, c.Anon, b.DN, b.PW, c.Mods}), "transport="+b.Transport,
 					fmt.Sprintf("expect-success=%v", want), fmt.Sprintf("anon=%v", c.Anon), fmt.Sprintf("raw=%v", b.Raw), fmt.Sprintf("via-defaults=%v", c.ViaDefaults))
 				h, err := get(dirFor(b.Transport))
 				if err != nil {
@@ -265,7 +356,7 @@ func c19Exec(c c19Case, st *lab.Stats) *lab.Fail {
 						return lab.Failf("bind-no-answer", "bind %q/%q over %s failed without an LDAP result: %v", b.DN, b.PW, b.Transport, err)
 					}
 				}
-				desc := fmt.Sprintf("bind dn=%q pw=%q over %s (anonymous binds allowed=%v, users=%+v)", b.DN, b.PW, b.Transport, c.Anon, c.Users)
+				desc := fmt.Sprintf("bind dn=%q pw=%q over %s (anonymous binds allowed=%v, users=%+v, password modifications sent over LDAP before the bind=%+v)", b.DN, b.PW, b.Transport, c.Anon, c.Users, c.Mods)
 				if want && code != 0 {
 					return lab.Failf("bind-refused", "%s: result %d, the reference predicate says success", desc, code)
 				}
@@ -305,6 +396,24 @@ func genC19(viaDefaults bool) func(t *rapid.T) c19Case {
 			}
 			c.Users = append(c.Users, u)
 		}
+		// password modifications over LDAP (set part only: the shared directories; one case in three)
+		var modifiable []int
+		for i := range c.Users {
+			if c19Modifiable(c.Users, i) {
+				modifiable = append(modifiable, i)
+			}
+		}
+		if !viaDefaults && len(modifiable) > 0 && rapid.IntRange(0, 2).Draw(t, "mods") == 0 {
+			newpw := rapid.SampledFrom([]string{"pw1", "pw2", "new", "PW1", "pw11", "pw1 ", c19Long, c19Long[:64], c19Long[:69] + "X"})
+			for k := rapid.IntRange(1, 3).Draw(t, "nmods"); k > 0; k-- {
+				m := c19Mod{User: rapid.SampledFrom(modifiable).Draw(t, "moduser"), Op: rapid.SampledFrom([]string{"replace", "replace", "replace", "delete"}).Draw(t, "modop")}
+				if m.Op == "replace" {
+					m.Vals = rapid.SliceOfN(newpw, 1, 3).Draw(t, "modvals")
+				}
+				c.Mods = append(c.Mods, m)
+			}
+		}
+		eff := c19Effective(c)
 		nb := rapid.IntRange(1, 8).Draw(t, "nbinds")
 		transports := []string{"plain", "plain", "plain", "tls", "starttls"}
 		if viaDefaults {
@@ -326,8 +435,15 @@ func genC19(viaDefaults bool) func(t *rapid.T) c19Case {
 				case 2:
 					b.DN = u.DN + ",dc=x"
 				}
-				if len(u.Pws) > 0 && rapid.IntRange(0, 3).Draw(t, "userpw") > 0 {
-					b.PW = u.Pws[rapid.IntRange(0, len(u.Pws)-1).Draw(t, "pwidx")]
+				ui := 0
+				for k := range c.Users {
+					if c.Users[k].DN == u.DN {
+						ui = k
+					}
+				}
+				known := append(append([]string{}, u.Pws...), eff[ui].Pws...) // before and after a modification
+				if len(known) > 0 && rapid.IntRange(0, 3).Draw(t, "userpw") > 0 {
+					b.PW = known[rapid.IntRange(0, len(known)-1).Draw(t, "pwidx")]
 				} else {
 					b.PW = pw.Draw(t, "bpw")
 				}
@@ -345,7 +461,7 @@ func genC19(viaDefaults bool) func(t *rapid.T) c19Case {
 	}
 }
 
-const c19Rule = "user sets of 0..6 entries over a DN pool with prefixes / extensions / case variants / duplicates, password attribute missing, [], [\"\"], one or several values, both anonymous-bind settings (SetAllowAnonymousBind; part defaults: WithDefaults at Start), bind DNs and passwords from the pool (including passwords with trailing NUL bytes and 63..71-byte passwords that differ only after byte 64), variants of user DNs, empty and random; one case in three first calls SetUsers 2..64 times, alternating an older variant of the user set with the final one, while 2..8 clients bind in a loop (not judged), and judges its binds only when nothing is in flight any more; over plain / TLS / StartTLS with go-ldap SimpleBind(AllowEmptyPassword) and the raw independent client, the 1..8 binds of a case running at the same time on their own connections; oracle = success iff (pw empty and anonymous allowed) or exists user with DN == bind DN and first password value == pw, else invalidCredentials; non-trivial = bind DN is a prefix/extension/case variant of a user DN, or password equals a non-first value, or is empty; distinct by hash of (users, anon, dn, pw)"
+const c19Rule = "user sets of 0..6 entries over a DN pool with prefixes / extensions / case variants / duplicates, password attribute missing, [], [\"\"], one or several values, both anonymous-bind settings (SetAllowAnonymousBind; part defaults: WithDefaults at Start), bind DNs and passwords from the pool (including passwords with trailing NUL bytes and 63..71-byte passwords that differ only after byte 64), variants of user DNs, empty and random; one case in three first calls SetUsers 2..64 times, alternating an older variant of the user set with the final one, while 2..8 clients bind in a loop (not judged), and judges its binds only when nothing is in flight any more; one case in three (part set) then sends 1..3 LDAP Modify requests (replace with 1..3 new values / delete) on the password attribute of users whose DN selects exactly one entry, and the binds use passwords from before and after; over plain / TLS / StartTLS with go-ldap SimpleBind(AllowEmptyPassword) and the raw independent client, the 1..8 binds of a case running at the same time on their own connections; oracle = success iff (pw empty and anonymous allowed) or exists user with DN == bind DN and first password value (as held by the directory at the time of the bind) == pw, else invalidCredentials; non-trivial = bind DN is a prefix/extension/case variant of a user DN, or password equals a non-first value, or a value the user had before / has after a modification, or is empty; distinct by hash of (users, anon, dn, pw)"
 
 func TestC19(t *testing.T) {
 	lab.Prop[c19Case]{ID: "C19", Part: "set", Rule: "rapid: " + c19Rule, Gen: genC19(false), Exec: c19Exec}.Run(t)
